@@ -180,6 +180,12 @@ def task_side(chk: Check):
     rd = ReachingDefs(g)
     body = g.call_nodes(lambda c: dotted(c.func) == "run" and len(c.args) == 1)
     if len(body) != 1:
+        # the module-level run() written out in place: loading the task from params.json, then task.execute()
+        mod_funcs = {ff.node.name for ff in tree.nontest_funcs() if ff.module is f.module and ff.cls is None and ff.parent is None}
+        cands = g.call_nodes(lambda c: (isinstance(c.func, ast.Name) and c.func.id in mod_funcs and c.args and "params.json" in src(c.args[0])) or (tail(c) == "execute" and not c.args))
+        first = [x for x in cands if all(g.dominates(x[0], y[0]) for y in cands)]
+        body = first[:1]
+    if len(body) != 1:
         raise Undecided(f"TaskRunner.run: {len(body)} calls of the task body `run(...)`")
     loops = [n for n in g.live if n.kind == "for" and src(n.ast.iter) == "self.lockfiles"]
     if len(loops) != 1:
@@ -311,6 +317,21 @@ def lock_files_never_removed(chk: Check):
             n += 1
             chk.require(not hit, chk.fkey(f, "removes a lock file"),
                         f"`{src(c)}` in `{f.qual}` removes / renames a lock file ({hit}): a process already waiting on the old file and a process arriving later would both hold 'the' lock", chk.loc(f.module, c))
+    # ... and never opened by anybody else: a POSIX record lock is dropped when the process closes *any* descriptor of the file
+    opened = []
+    for f in tree.nontest_funcs():
+        for c in fn_calls(f.node):
+            t = tail(c)
+            recv = src(c.func.value) if isinstance(c.func, ast.Attribute) else ""
+            arg0 = src(c.args[0]) if c.args else ""
+            lockish = lambda x: ("lockpath" in x or "xplockpath" in x) and "lock(" not in x
+            if t in ("write_text", "write_bytes", "read_text", "read_bytes", "open", "touch") and lockish(recv):
+                opened.append((f, c))
+            elif (dotted(c.func) or "") in ("open", "io.open", "os.open") and lockish(arg0):
+                opened.append((f, c))
+    for f, c in opened:
+        chk.violation(chk.fkey(f, "opens a lock file"), f"`{src(c)[:90]}` in `{f.qual}` opens a lock file: closing that descriptor releases the process's POSIX lock on it, "
+                      "so the lock looks held while another process can take it", chk.loc(f.module, c))
     chk.count("removal_sites_checked_for_lock_files", n)
     chk.ok("lock files are never removed", "", f"{n} removal / rename sites examined")
 
@@ -338,10 +359,18 @@ def _may_values(e, at, rd, depth=4) -> set:
     return out
 
 
+def r6_lock_held_during_body(chk: Check):
+    """the acquired run lock objects stay referenced (self.locks) while the body runs: a lock object that is dropped closes its descriptor and frees the lock"""
+    from . import c10
+
+    c10.r4_lock_type(chk)
+
+
 RULES = [
     ("R1", "registry de-duplication: decision table of aio_registerJob; aio_submit scheduled only for a new registration; duplicate submit returns the first output; same object twice raises", r1_registry),
     ("R2", "success-marker short-circuit: every path to aio_start tests the marker (true edge stores DONE), re-tested after every await that precedes the start loop; loop guarded by not finished", r2_marker_shortcircuit),
     ("R3", "the scheduler spawns the process and writes the pid file inside the job lock", r3_lock_while_starting),
     ("R4", "task side: body after all lock files are acquired (blocking), only if the success marker - read under the lock - is absent; the generated script lists job.lockpath", r4_task_side),
+    ("R6", "the run locks are descriptor-based and every acquired lock object is kept in self.locks for the whole body (= C10.R4)", r6_lock_held_during_body),
     ("R5", "the only writer of the success marker is TaskRunner.run's SystemExit handler under code == 0, and nothing in the package removes or replaces it", r5_marker_writers),
 ]
